@@ -26,25 +26,25 @@ theorem depths_cons (x : P) (ps : List P) : P.depths (x :: ps) = max x.depth (P.
 
 /-! ### the nested-repeat part of the first loop -/
 
-theorem repStep_jzStmt (d : Nat) (p : Int) (c : Node) (a : Int) : repStep d (jzStmt p c a) = .ok (jzStmt p c a) :=
-  repStep_other d p _ (by simp [Node.cls])
-theorem repStep_jumpStmt (d : Nat) (p a : Int) : repStep d (jumpStmt p a) = .ok (jumpStmt p a) :=
-  repStep_other d p _ (by simp [Node.cls])
+theorem repStep_jzStmt (d : Nat) (r : Option Int) (p : Int) (c : Node) (a : Int) : repStep d r (jzStmt p c a) = .ok (jzStmt p c a) :=
+  repStep_other d r p _ (by simp [Node.cls]) (by simp [Node.cls])
+theorem repStep_jumpStmt (d : Nat) (r : Option Int) (p a : Int) : repStep d r (jumpStmt p a) = .ok (jumpStmt p a) :=
+  repStep_other d r p _ (by simp [Node.cls]) (by simp [Node.cls])
 
 mutual
-theorem mapRep1_emit (k : Nat) (IH : ∀ ps, P.weights ps < k → MainAt ps) (ld : Bool) (d : Nat) :
-    (x : P) → (o : Int) → x.weight ≤ k → x.wf = true → x.depth ≤ d → (emit1 ld o x).mapM (repStep d) = .ok (emit1 true o x)
+theorem mapRep1_emit (k : Nat) (IH : ∀ ps, P.weights ps < k → MainAt ps) (ld : Bool) (d : Nat) (r : Option Int) :
+    (x : P) → (o : Int) → x.weight ≤ k → x.wf = true → x.depth ≤ d → (emit1 ld o x).mapM (repStep d r) = .ok (emit1 true o x)
   | .simple s, o, _, h, _ => by
     obtain ⟨_, h2⟩ := wf_simple.1 h
     rw [emit1_simple, emit1_simple]
-    exact mapM_cons_ok (repStep_other d _ _ (simpleCode_spec h2).2.2.2) mapM_nil_ok
+    exact mapM_cons_ok (repStep_other d r _ _ (simpleCode_spec h2).2.2.2.1 (simpleCode_spec h2).2.2.2.2) mapM_nil_ok
   | .skip n, o, _, _, _ => by rw [emit1_skip, emit1_skip]; rfl
   | .ifThen csz cond t e, o, hw, h, hd => by
     obtain ⟨ht, he, _⟩ := wf_if.1 h
     simp only [P.weight] at hw
     simp only [P.depth] at hd
-    have h1 := mapReps_emit k IH ld d t (o + csz + 3) (by omega) ht (by omega)
-    have h2 := mapReps_emit k IH ld d e (o + csz + 3 + P.sizes t + 3) (by omega) he (by omega)
+    have h1 := mapReps_emit k IH ld d r t (o + csz + 3) (by omega) ht (by omega)
+    have h2 := mapReps_emit k IH ld d r e (o + csz + 3 + P.sizes t + 3) (by omega) he (by omega)
     by_cases hemp : e = []
     · subst hemp
       rw [emit1_if_noelse, emit1_if_noelse]
@@ -63,7 +63,7 @@ theorem mapRep1_emit (k : Nat) (IH : ∀ ps, P.weights ps < k → MainAt ps) (ld
       apply repStep_repeat
       apply clean_id
       exact CleanL.cons_plain (c := .ifThen (o + csz) (.unary (S "not") (o + csz) cond) [exitRepeatStmt (o + csz)] [])
-        (by simp [Node.cls]) (by simp [Node.cls]) (tgtC_clean _ body hb d' (by omega))
+        (by simp [Node.cls]) (by simp [Node.cls]) (by simp [Node.cls]) (tgtC_clean _ body hb d' (by omega))
     | false =>
       rw [emit1_loop_raw, emit1_loop_done]
       refine mapM_cons_ok ?_ mapM_nil_ok
@@ -73,17 +73,17 @@ theorem mapRep1_emit (k : Nat) (IH : ∀ ps, P.weights ps < k → MainAt ps) (ld
         (HdrOK.hdr (o + csz) cond (o + csz + 3 + P.sizes body) _ rfl (by omega) (by omega)) (Or.inl rfl)
         (fun e he => by cases he; omega)
       simpa using this
-theorem mapReps_emit (k : Nat) (IH : ∀ ps, P.weights ps < k → MainAt ps) (ld : Bool) (d : Nat) :
+theorem mapReps_emit (k : Nat) (IH : ∀ ps, P.weights ps < k → MainAt ps) (ld : Bool) (d : Nat) (r : Option Int) :
     (ps : List P) → (o : Int) → P.weights ps ≤ k → P.wfs ps = true → P.depths ps ≤ d →
-      (emit ld o ps).mapM (repStep d) = .ok (emit true o ps)
+      (emit ld o ps).mapM (repStep d r) = .ok (emit true o ps)
   | [], o, _, _, _ => by rw [emit_nil, emit_nil]; rfl
   | x :: ps, o, hw, h, hd => by
     obtain ⟨hx, hps⟩ := wfs_cons.1 h
     rw [weights_cons] at hw
     rw [depths_cons] at hd
     rw [emit_cons, emit_cons]
-    exact mapM_append_ok (mapRep1_emit k IH ld d x o (by omega) hx (by omega))
-      (mapReps_emit k IH ld d ps (o + x.size) (by omega) hps (by omega))
+    exact mapM_append_ok (mapRep1_emit k IH ld d r x o (by omega) hx (by omega))
+      (mapReps_emit k IH ld d r ps (o + x.size) (by omega) hps (by omega))
 end
 
 /-! ### the second loop: one `if` -/
@@ -412,9 +412,9 @@ theorem condJzs_emit (k : Nat) (IH : ∀ ps, P.weights ps < k → MainAt ps) (d 
 theorem mainAt_step (k : Nat) (IH : ∀ ps, P.weights ps < k → MainAt ps) (ps : List P) (hw : P.weights ps ≤ k) : MainAt ps := by
   intro ld d o r H H' T hwf hd hH hT hrb
   -- part 1 of the first loop
-  have hM : mapRep d (H ++ (emit ld o ps ++ T)) = .ok (H ++ (emit true o ps ++ T)) := by
+  have hM : mapRep d (H ++ (emit ld o ps ++ T)) r = .ok (H ++ (emit true o ps ++ T)) := by
     rw [mapRep_eq]
-    refine mapM_append_ok ?_ (mapM_append_ok (mapReps_emit k IH ld d ps o hw hwf hd) ?_)
+    refine mapM_append_ok ?_ (mapM_append_ok (mapReps_emit k IH ld d r ps o hw hwf hd) ?_)
     · cases hH with
       | none => rfl
       | hdr pj cond e a _ _ _ => exact mapM_cons_ok (repStep_jzStmt ..) mapM_nil_ok
